@@ -282,9 +282,9 @@ fn subtype_collect_(
         (Null, Opt(_)) => (),
         // For opt rules we delegate to the existing subtype_ to test the condition,
         // since these are probes, not things that generate multiple independent errors.
-        (Opt(ty1), Opt(ty2)) if subtype_(report, gamma, env, ty1, ty2, depth).is_ok() => {}
+        (Opt(ty1), Opt(ty2)) if probe(report, gamma, env, ty1, ty2, depth) => {}
         (_, Opt(ty2))
-            if subtype_(report, gamma, env, t1, ty2, depth).is_ok()
+            if probe(report, gamma, env, t1, ty2, depth)
                 && !matches!(
                     env.trace_type_with_depth(ty2, depth)
                         .map(|t| t.as_ref().clone()),
@@ -512,6 +512,26 @@ fn pp_modes(modes: &[super::internal::FuncMode]) -> String {
         .join(" ")
 }
 
+/// Test `t1 <: t2` as a guard whose failure is swallowed by the caller. The memo
+/// is restored when the probe fails: pairs recorded while it ran may only hold
+/// under assumptions that turned out to be false.
+fn probe(
+    report: OptReport,
+    gamma: &mut Gamma,
+    env: &TypeEnv,
+    t1: &Type,
+    t2: &Type,
+    depth: &RecursionDepth,
+) -> bool {
+    let saved = gamma.clone();
+    if subtype_(report, gamma, env, t1, t2, depth).is_ok() {
+        true
+    } else {
+        *gamma = saved;
+        false
+    }
+}
+
 fn subtype_(
     report: OptReport,
     gamma: &mut Gamma,
@@ -562,9 +582,9 @@ fn subtype_(
         (Service(_), Principal) => Ok(()),
         (Vec(ty1), Vec(ty2)) => subtype_(report, gamma, env, ty1, ty2, depth),
         (Null, Opt(_)) => Ok(()),
-        (Opt(ty1), Opt(ty2)) if subtype_(report, gamma, env, ty1, ty2, depth).is_ok() => Ok(()),
+        (Opt(ty1), Opt(ty2)) if probe(report, gamma, env, ty1, ty2, depth) => Ok(()),
         (_, Opt(ty2))
-            if subtype_(report, gamma, env, t1, ty2, depth).is_ok()
+            if probe(report, gamma, env, t1, ty2, depth)
                 && !matches!(
                     env.trace_type_with_depth(ty2, depth)?.as_ref(),
                     Null | Reserved | Opt(_)
